@@ -9,7 +9,7 @@ reader.read(n)` with n around the record size, keeping pace with the sender.
 
 import codecs
 import itertools
-from typing import Any, Dict, List
+from typing import Any, Dict, List, Optional, Tuple
 
 from hypothesis import strategies as st
 
@@ -566,5 +566,183 @@ FAMILIES = [
     Family('streams', run_streams, strategy=streams_strategy,
            budget={'quick': 600, 'thorough': 8000},
            required={'all': ['record==n', 'lockstep', 'dir:down', 'dir:up']},
+           timeout_is_violation=True, case_timeout=120),
+]
+
+
+# ------------------------------------------------------- foreign-sender ---
+#
+# An asyncssh sender never separates the bytes of one character by a packet
+# of another data type (its send buffer is one FIFO).  Another
+# implementation does: sshd reads the command's stdout and stderr from two
+# pipes, in pieces that end wherever the kernel ended them.  An independent
+# peer therefore sends two UTF-8 texts as stdout and stderr packets cut at
+# generated byte positions and interleaved at will.
+
+def run_foreign(case) -> CaseResult:
+    from .c08 import setup
+
+    enc = case['enc']
+    texts = {None: case['out'], 1: case['err']}
+    raw = {k: v.encode(enc) for k, v in texts.items()}
+    pos = {None: 0, 1: 0}
+    store: Dict[Any, List[Any]] = {}
+    labels = {'enc:' + enc}
+    link, conn, rch, chan = setup('client', store, [], 1 << 21, 32768,
+                                  encoding=enc)
+
+    try:
+        NOTHING = 'nothing sent yet'       # (None is the stdout data type)
+        last: Any = NOTHING
+        mid_char = {None: False, 1: False}
+        sent_seq: List[Tuple[Optional[int], bytes]] = []
+
+        def boundary(dt) -> int:
+            """Next position of stream dt at which a character ends"""
+
+            k = pos[dt]
+            while k < len(raw[dt]):
+                k += 1
+                try:
+                    raw[dt][:k].decode(enc)
+                    return k
+                except UnicodeDecodeError:
+                    continue
+            return len(raw[dt])
+
+        for which, n in case['cuts']:
+            dt = 1 if which == 'e' else None
+
+            if last != NOTHING and last != dt and mid_char[last] and \
+                    not case['interleave']:
+                # (most cases: the other type only speaks between characters)
+                k = boundary(last)
+                tail = raw[last][pos[last]:k]
+                pos[last] = k
+                mid_char[last] = False
+                conn.data(rch, tail, last)
+                sent_seq.append((last, tail))
+
+            piece = raw[dt][pos[dt]:pos[dt] + n]
+
+            if not piece:
+                continue
+
+            if last != NOTHING and last != dt and mid_char[last]:
+                # the other stream's character is still incomplete
+                labels.add('other-type-inside-character')
+
+            pos[dt] += len(piece)
+
+            try:
+                raw[dt][:pos[dt]].decode(enc)
+                mid_char[dt] = False
+            except UnicodeDecodeError:
+                mid_char[dt] = True
+                labels.add('packet-ends-inside-character')
+
+            conn.data(rch, piece, dt)
+            sent_seq.append((dt, piece))
+            last = dt
+
+            if case['pump_each']:
+                link.pump()
+
+        # the rest: the stream that is inside a character goes first
+        for dt in sorted((None, 1), key=lambda d: not mid_char[d]):
+            if pos[dt] < len(raw[dt]):
+                if last != NOTHING and last != dt and mid_char[last]:
+                    labels.add('other-type-inside-character')
+                conn.data(rch, raw[dt][pos[dt]:], dt)
+                sent_seq.append((dt, raw[dt][pos[dt]:]))
+                last = dt
+                mid_char[dt] = False
+
+        conn.eof(rch)
+        link.pump()
+        events = store.get('app', [])
+
+        for dt in (None, 1):
+            got = ''.join(e[2] for e in events
+                          if e[0] == 'data' and e[1] == dt)
+
+            if got != texts[dt]:
+                lost = [e for e in events if e[0] == 'lost']
+
+                if 'other-type-inside-character' in labels and \
+                        one_decoder_differs(sent_seq, enc, texts):
+                    # recorded finding: one incremental decoder per channel
+                    # instead of one per data type
+                    raise Violation(
+                        'data-mismatch', 'a %s packet arrived between the '
+                        'bytes of a character of the other data type; the '
+                        'channel decodes all types with one decoder '
+                        '(received %r instead of %r; connection: %r)' %
+                        ('stderr' if dt is None else 'stdout', got,
+                         texts[dt], lost[:1]),
+                        'foreign:one-decoder-for-all-data-types')
+
+                raise Violation(
+                    'data-mismatch', '%s: the peer sent %r (%d bytes of %s in '
+                    'packets cut at %r), the application received %r; '
+                    'connection: %r' %
+                    ('stderr' if dt else 'stdout', texts[dt], len(raw[dt]),
+                     enc, case['cuts'][:12], got, lost[:1]),
+                    'foreign:data-mismatch:' + ('e' if dt else 'o'))
+
+        if not any(e[0] == 'eof' for e in events):
+            raise Violation('eof-missing', 'EOF sent after the data was not '
+                            'reported', 'foreign:eof-missing')
+
+        if link.h.loop_errors:
+            raise Violation('loop-error', repr(link.h.loop_errors[0])[:300],
+                            'loop-error')
+
+        return CaseResult(sorted(labels),
+                          'packet-ends-inside-character' in labels)
+    finally:
+        link.close()
+
+
+def one_decoder_differs(seq, enc: str, texts) -> bool:
+    """Would ONE incremental decoder fed with the packets in arrival order
+    fail or give another result than decoding each data type on its own?"""
+
+    import codecs
+    dec = codecs.getincrementaldecoder(enc)('strict')
+    out = {None: '', 1: ''}
+
+    try:
+        for dt, piece in seq:
+            out[dt] += dec.decode(piece)
+        dec.decode(b'', True)
+    except UnicodeDecodeError:
+        return True
+
+    return out != texts
+
+
+def foreign_strategy(tier: str):
+    alpha = ['a', 'b', 'é', '€', '\U0001f600', '世', '\n']
+    text = st.lists(pick(alpha), min_size=0, max_size=12).map(''.join)
+    cut = st.tuples(pick(['o', 'o', 'e']), pick([1, 1, 1, 2, 3, 5])).map(list)
+    return st.fixed_dictionaries({
+        'enc': pick(['utf-8', 'utf-8', 'utf-16-le']),
+        'out': text, 'err': text,
+        'cuts': st.lists(cut, min_size=1, max_size=30),
+        # one case in six lets the other data type in between the bytes of
+        # a character (recorded finding; kept rare so that the other cases
+        # run to their end)
+        'interleave': pick([False, False, False, False, False, True]),
+        'pump_each': st.booleans()})
+
+
+FAMILIES += [
+    Family('foreign-sender', run_foreign, strategy=foreign_strategy,
+           budget={'quick': 600, 'thorough': 10000},
+           # (cases with another data type inside a character end in the
+           # recorded finding and are counted as `known-finding`)
+           required={'all': ['packet-ends-inside-character',
+                             'known-finding']},
            timeout_is_violation=True, case_timeout=120),
 ]
